@@ -711,8 +711,17 @@ def check_tables_parts(ck, cx, r, m, P, ts_op, codec, tab):
         pos[role] = si[0]
         seqs.append(si[1])
     ck.need(all(same(s, seqs[0]) for s in seqs), "%s: payload, timestamp and signature come from different sequences" % fi.qualname)
-    sp = split_sep(seqs[0])
+    whole = seqs[0]
+    truncated = False
+    if isinstance(whole, ast.Subscript) and isinstance(whole.slice, ast.Slice) and split_sep(whole.value) is not None:
+        # the fields are taken from a slice of the split: whatever lies beyond the slice is never looked at
+        truncated, whole = True, whole.value
+    sp = split_sep(whole)
+    if sp is None and isinstance(whole, ast.Call) and isinstance(whole.func, ast.Attribute) and whole.func.attr in ("split", "rsplit") and len(whole.args) == 2:
+        raise AnalysisError("%s: split with a maxsplit argument is not modelled" % fi.qualname)
     ck.need(sp is not None, "%s: the parts are not the result of <input>.split(SEP)" % fi.qualname)
+    ck.ob("C23.fields-agree", fi, r.ast, not truncated, "all parts of the split input are accounted for (the fields are not taken from a truncating slice, which would ignore anything appended to a signed value)",
+          construct="whole split")
     want = {role: i for i, role in enumerate(tab["roles"]) if role in pos}
     ck.ob("C23.fields-agree", fi, r.ast, pos == want, "positions of payload/timestamp/signature in the decoder %s equal the encoder's join order %s" % (pos, want), construct="positions %s" % sorted(pos.items()))
     ck.ob("C23.fields-agree", fi, r.ast, sp[1] == tab["sep"], "decoder splits on the separator the encoder joins with (%r)" % (tab["sep"],), construct="separator %r" % (sp[1],))
@@ -726,6 +735,15 @@ def check_tables_parts(ck, cx, r, m, P, ts_op, codec, tab):
                 if isinstance(a, ast.Call) and isinstance(a.func, ast.Name) and a.func.id == "len" and isinstance(b, ast.Constant) and b.value == n:
                     if same(cx.rd.expand(a.args[0], r), seqs[0]):
                         ok = True
+    if not ok:
+        # unpacking the whole sequence into exactly n targets establishes the arity too (it raises otherwise; the
+        # escape rules decide whether that ValueError is handled)
+        for d in cx.rd.defs:
+            if d.kind == "unpack" and d.arity == n and d.node is not None and d.node.id in fi.cfg.dominators().get(r.id, set()) and same(cx.rd.expand(d.value, d.node), seqs[0]):
+                ok = True
+    if not ok and not truncated:
+        absent_or_unknown(cx.rd, r, lambda E: any(isinstance(x, ast.Call) and isinstance(x.func, ast.Name) and x.func.id == "len" for x in ast.walk(E)) and any(split_sep(x) is not None for x in ast.walk(E)),
+                          {x.id for x in fi.cfg.stmt_nodes(lambda x: x.kind == "test") if equality_fact(x.ast, True) is not None or fact_geq0(x.ast, True) is not None}, "the number-of-parts test")
     ck.ob("C23.fields-agree", fi, r.ast, ok, "return dominated by 'number of parts == %d' (the encoder joins %d elements)" % (n, n), construct="arity %d" % n)
     # MAC argument order
     roles = []
@@ -1178,6 +1196,29 @@ def check_none_input(ck, fi):
     return n
 
 
+VOCABULARY = set(ANALYSED) | {"_consume_field", "_signed_value_version_re"}
+ROOTS = ("create_signed_value", "decode_signed_value", "_decode_signed_value_v1", "_decode_signed_value_v2", "_decode_fields_v2", "_get_version", "get_signature_key_version",
+         "_create_signature_v1", "_create_signature_v2", "RequestHandler.get_signed_cookie", "RequestHandler.create_signed_value", "RequestHandler.get_signed_cookie_key_version")
+
+
+def normalise(ck):
+    """Inline private helpers that a refactoring split off the anchored functions (the functions the rules
+    name themselves, and one-argument field formatters of the encoder, stay calls)."""
+    from ..x_secinline import inlined
+
+    def keep(name, h):
+        if name in VOCABULARY:
+            return True
+        a = h.args
+        one_arg = len(a.posonlyargs + a.args) == 1 and not a.kwonlyargs
+        body = [s for s in h.body if not (isinstance(s, ast.Expr) and isinstance(s.value, ast.Constant))]
+        return one_arg and len(body) == 1 and isinstance(body[0], ast.Return) and any(isinstance(x, ast.Call) and isinstance(x.func, ast.Name) and x.func.id == "len" for x in ast.walk(body[0]))
+
+    ck.repo = inlined(ck.repo, W, ROOTS, keep)
+    for nm in getattr(ck.repo, "inlined_helpers", []):
+        ck.note("inlined private helper %s into its caller before analysis" % nm)
+
+
 # ---------------------------------------------------------------------------
 
 
@@ -1198,6 +1239,7 @@ def run(ck):
     ck.rule("C23.exc-none", "an input that may be None is tested before use in the public decoder")
     ck.rule("C23.exc-raise", "explicit raise/assert reaching the caller of the public decoders is not selected by attacker-controlled text")
 
+    normalise(ck)
     enc = ck.func(W, "create_signed_value")
     dec = ck.func(W, "decode_signed_value")
     v1 = ck.func(W, "_decode_signed_value_v1")
@@ -1367,6 +1409,8 @@ MUTANTS = [
     ("v2: signature compared case-insensitively", _in("_decode_signed_value_v2", replace_expr(lambda n: isinstance(n, ast.Call) and q.call_attr(n) == "compare_digest", lambda n: ast.Call(func=n.func, args=[parse_expr("passed_sig.lower()"), n.args[1]], keywords=[]))), "C23.mac-gate"),
     ("v2: name compared case-insensitively", _in("_decode_signed_value_v2", replace_expr(lambda n: isinstance(n, ast.Compare) and "name_field" in ast.unparse(n), lambda n: parse_expr("name_field.lower() != utf8(name).lower()"))), "C23.name-bound"),
     ("entry: the empty/None input test removed", _in("decode_signed_value", remove_stmts(lambda st: isinstance(st, ast.If) and ast.unparse(st.test) == "not value")), "C23.exc-none"),
+    ("seeded C23-adv3: fields unpacked from split(...)[:3] (appended data ignored)", _in("_decode_signed_value_v1", lambda root: _seed_adv3(root)), "C23.fields-agree"),
+    ("v1: parts taken from split(...)[:3] with the length test kept on the slice", _in("_decode_signed_value_v1", replace_expr(lambda n: isinstance(n, ast.Call) and q.call_attr(n) == "split", lambda n: ast.Subscript(value=n, slice=ast.Slice(upper=ast.Constant(value=3)), ctx=ast.Load()))), "C23.fields-agree"),
     ("dispatch: v1 decoder called for version 2 values too", _in("decode_signed_value", replace_expr(lambda n: isinstance(n, ast.Compare) and ast.unparse(n) == "version == 1", lambda n: parse_expr("version <= 2"))), "C23.dispatch"),
 ]
 
@@ -1409,4 +1453,13 @@ def _drop_kw(root, name):
             if len(k) != len(x.keywords):
                 x.keywords = k
                 return True
+    return False
+
+
+def _seed_adv3(root):
+    body = root.body
+    for i, st in enumerate(body):
+        if isinstance(st, ast.Assign) and "split" in ast.unparse(st.value):
+            body[i] = parse_stmt("try:\n    parts = utf8(value).split(b'|')[:3]\n    _p0, _p1, _p2 = parts\nexcept ValueError:\n    return None")
+            return remove_stmts(lambda s_: isinstance(s_, ast.If) and "len(parts)" in ast.unparse(s_.test))(root)
     return False
